@@ -327,10 +327,14 @@ class Basin(abc.ABC):
                         # data), then the measurement identifier has to
                         # partially match.
                         verifier = str.startswith
-                    self._measurement_identifier_verified = verifier(
-                        self.measurement_identifier,
-                        self.get_measurement_identifier()
-                    )
+                    basin_identifier = self.get_measurement_identifier()
+                    if basin_identifier is None:
+                        # The basin does not have a measurement identifier,
+                        # so it cannot be matched to the referencing dataset.
+                        self._measurement_identifier_verified = False
+                    else:
+                        self._measurement_identifier_verified = verifier(
+                            self.measurement_identifier, basin_identifier)
             check_rid = self._measurement_identifier_verified
         else:
             check_rid = True
